@@ -1,13 +1,14 @@
 SPECIFICATION GenSpec
 CONSTANTS
-  IfBase <- FIfBase  IfAdd <- FIfAdd  IfCap <- FIfCap
+  IfBase <- SIfBase  IfAdd <- SIfAdd  IfCap <- SIfCap
   BuiltinIf <- FBuiltinIf
-  DynBase <- FDynBase  DynCap <- FDynCap
-  MetaBase <- FMetaBase  MetaCap <- FMetaCap
-  GenBase <- FGenBase  GenCap <- FGenCap
+  DynBase <- SDynBase  DynCap <- SDynCap
+  MetaBase <- SMetaBase  MetaCap <- SMetaCap
+  GenBase <- SGenBase  GenCap <- SGenCap
   Chunk = 30
-  PtrSize <- FPtr
-  Fixed <- FFixed
+  PtrSize <- SPtr
+  FixedSize <- SFixedSize
+  FixedManaged <- SFixedManaged
   Optional = {}
   Names = {"", "abc", "abcd", "iter", "logger", "metatype", "mpt.x"}
   Sizes = {0, 24}
@@ -16,6 +17,6 @@ CONSTANTS
 CONSTRAINT Bound
 VIEW View
 ACTION_CONSTRAINT Emit
-INVARIANTS TypeOK Refines InRange NameInverse
-PROPERTIES Legal Stable RefuseFrame DesignAgrees
+INVARIANTS TypeOK InRange
+PROPERTIES Legal Stable RefuseKeeps DesignAgrees
 CHECK_DEADLOCK FALSE
